@@ -247,7 +247,11 @@ func genDoc(rng *rand.Rand, helperHeavy bool) *doc {
 		h := hosts[rng.IntN(nh)]
 		key := h
 		switch x := rng.IntN(100); {
-		case x < 35:
+		case x < 30:
+		case x < 38:
+			// a scheme-less key with a path (a namespaced entry): not URL-form, so it is a key of its
+			// own and says nothing about the bare host
+			key = h + []string{"/orga", "/orgb", "/v1/", "/a/b"}[rng.IntN(4)]
 		case x < 99:
 			key = []string{"https://", "http://"}[rng.IntN(2)] + h + urlPaths[rng.IntN(len(urlPaths))]
 		default:
@@ -319,6 +323,9 @@ func (d *doc) lookupNames() []string {
 			}
 		} else {
 			set[k] = true
+			if i := strings.IndexByte(k, '/'); i > 0 {
+				set[k[:i]] = true // the bare host of a scheme-less key with a path
+			}
 		}
 	}
 	for _, ch := range d.CredHelpers {
